@@ -50,6 +50,9 @@ def c09(rec, tier):
     f4_gc.gc_phase_order(rec, F)
     # identity = content only while every holder of a string keeps it marked: containers trace keys too
     f5_trace.run_generic_params(rec, F)
+    # every field that holds strings (names, keys, paths) is traced: a string freed while a table still uses it as a key
+    # is re-created at another address, and the table lookup (address equality) misses
+    f5_trace.run(rec, F, field_type_re=r"ly_str::LyStr")
     SF = STRESS(rec)
     if SF is not None:
         f4_gc.gc_phase_order(rec, SF)
@@ -136,6 +139,7 @@ def c13(rec, tier):
     F = D(rec)
     S = SY(rec)
     f4_cache.run(rec, F)
+    f4_cache.fill_depends_on_key_only(rec, F)
     f2_emit.run_slots(rec, S)
     f2_emit.run_fixed_index(rec, S)
     f2_emit.run_known_class_receiver(rec, S)
